@@ -3,4 +3,5 @@ package main
 func extractAll() {
 	extractCompat()
 	extractCacheKey()
+	extractOpTable()
 }
